@@ -19,6 +19,7 @@ VARIABLES J, S, steps
 V == 0..(NVars - 1)
 
 Alphabet == {TWord("numeric", 0), TWord("unsigned", 8), TWord("signed", 0), TWord("address", 160),
+             TWord("address", 0), TWord("signed", 160),
              TWord("bytes", 32), TBytes, TAny, TDyn(0), TDyn(1), TMap(0, 1), TMap(1, 2), TMap(2, 2), TFix(0, 3)}
 
 AllJ == {<<v, e>> : v \in V, e \in Alphabet} \cup {<<v, EqJ(w)>> : v \in V, w \in V}
